@@ -718,6 +718,42 @@ def _dictionary_free_build_type(arrow_type: pa.DataType, *, under_struct: bool =
     return arrow_type, False
 
 
+def _all_nullable(arrow_type: pa.DataType) -> pa.DataType:
+    """Return ``arrow_type`` with every nested struct / list / map child field nullable."""
+    if pa.types.is_struct(arrow_type):
+        return pa.struct(
+            [
+                pa.field(arrow_type.field(i).name, _all_nullable(arrow_type.field(i).type), nullable=True)
+                for i in range(arrow_type.num_fields)
+            ]
+        )
+    if pa.types.is_map(arrow_type):
+        return pa.map_(_all_nullable(arrow_type.key_type), _all_nullable(arrow_type.item_type))
+    if pa.types.is_list(arrow_type):
+        return pa.list_(_all_nullable(arrow_type.value_type))
+    return arrow_type
+
+
+def _with_declared_fields(array: Any, arrow_type: pa.DataType) -> Any:
+    """Rebuild ``array`` (same layout, relaxed nullability) under ``arrow_type``, keeping values and validity."""
+    if array.type == arrow_type:
+        return array
+    mask = array.is_null() if array.null_count else None
+    if pa.types.is_struct(arrow_type):
+        fields = [arrow_type.field(i) for i in range(arrow_type.num_fields)]
+        children = [_with_declared_fields(array.field(i), fields[i].type) for i in range(len(fields))]
+        return pa.StructArray.from_arrays(children, fields=fields, mask=mask)
+    if pa.types.is_map(arrow_type):
+        keys = _with_declared_fields(array.keys, arrow_type.key_type)
+        items = _with_declared_fields(array.items, arrow_type.item_type)
+        map_array_cls: Any = pa.MapArray  # the stubs' overloads do not cover (keys, items, type=, mask=)
+        return map_array_cls.from_arrays(array.offsets, keys, items, type=arrow_type, mask=mask)
+    if pa.types.is_list(arrow_type):
+        values = _with_declared_fields(array.values, arrow_type.value_type)
+        return pa.ListArray.from_arrays(array.offsets, values, type=arrow_type, mask=mask)
+    return array
+
+
 class _RowEncoder(NamedTuple):
     """Per-class inputs for building a one-row RecordBatch (see ``_row_encoder``)."""
 
@@ -1400,7 +1436,18 @@ class ArrowSerializableDataclass:
                 if build_type is None:
                     arrays.append(pa.array([value], type=encoder.types[index]))
                 else:
-                    arrays.append(pa.array([value], type=build_type).cast(encoder.types[index]))
+                    try:
+                        arrays.append(pa.array([value], type=build_type).cast(encoder.types[index]))
+                    except pa.ArrowInvalid:
+                        # The cast is stricter than the direct build: it refuses a null under a
+                        # child declared non-nullable, which a nested ``Annotated[X | None, ...]``
+                        # field legitimately holds (its column is declared not-null, and neither
+                        # the direct build nor any reader enforces that).  Cast with every nested
+                        # field nullable, then put the declared field flags back.
+                        relaxed = pa.array([value], type=_all_nullable(build_type)).cast(
+                            _all_nullable(encoder.types[index])
+                        )
+                        arrays.append(_with_declared_fields(relaxed, encoder.types[index]))
         return pa.RecordBatch.from_arrays(arrays, schema=encoder.schema)
 
     def serialize(self, dest: IOBase) -> None:
